@@ -175,7 +175,7 @@ inline Plan Gen(uint64_t seed)
    f.reorder = f.any && !wbOnly && !cfg.oneIn(3);
    f.wblock  = f.any && (wbOnly || !cfg.oneIn(3));
    f.restart = f.any && !wbOnly && cfg.oneIn(6);
-   if ((g.mini)&&(zl > 0)&&(!cfg.oneIn(4))) f.wblock = false;   // would-block + mini-tunnel compression loses Messages (finding); kept rare so that it cannot drown everything else
+   (void) cfg.oneIn(4);   // (would-block + mini-tunnel compression used to be sampled in 1 run in 4 only while F26 was open; the draw is kept so that older seeds keep their plans)
    static const int rates[] = {2, 5, 10, 25}; static const int rrates[] = {5, 15, 40};
    f.pdrop = rates[cfg.below(4)]; f.pdup = rates[cfg.below(4)]; f.preorder = rrates[cfg.below(3)];
    const int fillBias = (int) cfg.below(5);   // 0-3: every Message uses that fill; 4: mixed
@@ -188,8 +188,8 @@ inline Plan Gen(uint64_t seed)
    const uint32_t maxFrag = (cap < 8) ? 120 : 20;                      // the longest Message, in packets
    const uint64_t maxFlat64 = std::min<uint64_t>((uint64_t) cap*maxFrag, 190000);
    uint32_t maxFlat = (uint32_t) std::max<uint64_t>(maxFlat64, kFlatEmpty+sh) - sh;
-   // with a slave gateway the receiver loses every Message whose buffer exceeds the default packet size (finding): such Messages only in one slave run in sixty
-   const bool bigSlave = slave && cfg.oneIn(60);
+   // with a slave gateway, Messages whose buffer exceeds the default packet size (F24, fixed) in every second slave run
+   const bool bigSlave = slave && ((cfg.below(60) % 2) == 0);
    if ((slave)&&(!bigSlave)) maxFlat = std::min<uint32_t>(maxFlat, (uint32_t) MUSCLE_MAX_PAYLOAD_BYTES_PER_UDP_ETHERNET_PACKET - kSlaveHdr);
    uint32_t common;
    {
